@@ -13,6 +13,7 @@ Bind : every enumerated name is given to the real protect_name, maybe_escape_nam
 """
 import os
 import re
+import time
 
 from harness import tlc
 from harness.pyenv import repo_import
@@ -89,7 +90,21 @@ def describe(fn, kind, name, out, err):
             % (fn, name, out, toks, "identifier" if kind == "ident" else "string", name))
 
 
+class _Phases:
+    """Wall time per phase, recorded in the evidence (information only)."""
+
+    def __init__(self, ctx):
+        self.ctx, self.t, self.d = ctx, time.time(), {}
+
+    def done(self, name):
+        now = time.time()
+        self.d[name] = round(now - self.t, 1)
+        self.t = now
+        self.ctx.note("phase_wall_s", dict(self.d))
+
+
 def run(ctx):
+    ph = _Phases(ctx)
     consts = {"MaxLen": 3 if ctx.quick else 4}
     ctx.note("constants", consts)
     # ---- spec -> itself: exhaustive over names x forms
@@ -101,6 +116,7 @@ def run(ctx):
         ctx.violation("TLC: invariant %s violated in CqlLex.tla (the reference quoting does not read back)" % res.invariant,
                       replay={"trace": [s for _, s in res.trace()]}, signature="spec:" + str(res.invariant))
         return
+    ph.done("tlc_exhaustive")
     cov = res.coverage()
     for act in ("Char", "End"):
         if cov.get(act, (0, 0))[0] == 0:
@@ -113,6 +129,7 @@ def run(ctx):
     if reached != set(WITNESSES):
         raise tlc.MachineryError("vacuity witnesses not reached: %s" % sorted(set(WITNESSES) - reached))
     ctx.note("vacuity_witnesses_reached", len(WITNESSES))
+    ph.done("tlc_witnesses")
 
     # ---- enumerate the names (initial states only) and bind
     ecfg = tlc.write_cfg(os.path.join(ctx.scratch, "CqlLexE.cfg"), init="InitNames", next="Stutter", constants=consts,
@@ -151,6 +168,7 @@ def run(ctx):
             ctx.sample({"name": name, "spec_BareOk": bool(st["bare"]),
                         "outputs": {fn: call(funcs, fn, name)[0] for fn in FUNCS}})
     n_real = len(traces)
+    ph.done("bind_real_code")
     # binding self-test: corrupted traces that must be rejected
     probe = 'a"b'
     good = cqllex.lex_trace("ident", probe, '"a""b"')
@@ -172,6 +190,7 @@ def run(ctx):
     if vres.violation or progress is None:
         raise tlc.MachineryError("trace validation run failed: %s\n%s" % (vres.error, vres.out[-2000:]))
     ctx.add_tlc(vres, "trace validation")
+    ph.done("tlc_trace_validation")
     accepted = [progress[i] == len(traces[i]) + 1 for i in range(len(traces))]
     got = {k: accepted[n_real + i] for i, k in enumerate(st_names)}
     if got != {k: (k == "good") for k in st_names}:
@@ -191,6 +210,7 @@ def run(ctx):
                 failures.append((fn, kind, name, out, None, "rejected at character %d" % max(progress[i] - 2, 0)))
     # spec theorem cross-check used by the binding: an unquoted output equal to the name reads back iff BareOk
     report(ctx, failures)
+    ph.done("verdicts")
     ctx.note("names", len(states))
     ctx.note("distinct_traces", n_real)
     ctx.assumptions += ["CQL lexing = Cassandra 3.0-4.x Lexer.g restricted to identifiers, string literals, whitespace, "
